@@ -43,7 +43,7 @@ class CHECK(Check):
     rule = ("(a) interleavings of 3-25 operations over 2-4 register objects of 1-3 classes (two classes may share one Line object), "
             "the lists returned by Line.read, and 1-3 register files: construct a register, read a line into it, write it, call "
             "Line.read directly and keep the result, mutate any list the user holds, set a shared field's value, File(), "
-            "File.read(content), append / remove on a file; every interleaving of length<=3 over a 7-operation alphabet on two "
+            "File.read(content), append / remove on a file, moving an element from one file to another; every interleaving of length<=3 over a 7-operation alphabet on two "
             "registers of one class (complete) plus random interleavings. After every operation every live object's observation "
             "and the identity partition of all data lists / containers are compared with the model, and each object's final "
             "observation with an isolated replay of its own operations. (b) for the three families: File() == File.read(''), two "
@@ -104,10 +104,12 @@ class CHECK(Check):
                     else:
                         ops.append([7, rng.randint(0, 3)])
                     nfiles += 1
-                elif k < 0.96:
+                elif k < 0.93:
                     ops.append([8, rng.randrange(nfiles)])
-                else:
+                elif k < 0.96:
                     ops.append([9, rng.randrange(nfiles)])
+                else:
+                    ops.append([10, rng.randrange(nfiles), rng.randrange(nfiles)])
             yield {"kind": "graph", "lines": lines, "ops": ops}
 
     # ---------------------------------------------------------------- implementation
@@ -132,9 +134,11 @@ class CHECK(Check):
             return table[id(obj)]
 
         trace = []
+        import itertools
         for op in case["ops"]:
             out = None
             try:
+              with lib.budget(60000):
                 t = op[0]
                 if t == 0:
                     r = classes[op[1]]()
@@ -163,10 +167,19 @@ class CHECK(Check):
                     files.append(FC.read("".join("free %d\n" % i for i in range(op[1]))))
                 elif t == 8:
                     files[op[1]].data.append(DefaultRegister(data="appended\n"))
+                elif t == 9:
+                    d = files[op[1]].data
+                    if len(list(itertools.islice(d, 3))) > 1:
+                        d.remove(d.last)
                 else:
                     d = files[op[1]].data
-                    if len(d) > 1:
-                        d.remove(d.last)
+                    els = list(itertools.islice(d, 200))
+                    if len(els) >= 3:
+                        d.remove(els[1])
+                        files[op[2]].data.append(els[1])
+            except lib.BudgetExceeded:
+                trace.append({"raised": "BudgetExceeded (an operation did not terminate)"})
+                break
             except Exception as e:
                 trace.append({"raised": type(e).__name__ + ": " + str(e)[:80]})
                 break
@@ -312,9 +325,7 @@ class CHECK(Check):
                 if o[0] == "res" or cur.get(o[1]) == op[1]:
                     per_obj_ops[o].append(i)
             elif t in (6, 7):
-                per_obj_ops[("file", nfile)] = [i]; nfile += 1
-            elif t in (8, 9):
-                per_obj_ops[("file", op[1])].append(i)
+                nfile += 1
         final = obs[-1]
         for key, idxs in per_obj_ops.items():
             sub, remap = self.project(case, key, idxs, owner)
@@ -334,9 +345,37 @@ class CHECK(Check):
             elif key[0] == "res":
                 if final["results"][key[1]] != last["results"][0]:
                     return "a list returned by Line.read changed as a side effect of other operations"
-            else:
-                if len(final["files"][key[1]]) != len(last["files"][0]):
-                    return "a file's container changed as a side effect of operations on other objects"
+        # files: reference simulation with plain Python lists of element tokens
+        ref = []
+        tok = [0]
+
+        def fresh():
+            tok[0] += 1
+            return tok[0]
+        for i, op in enumerate(ops):
+            t = op[0]
+            if t == 6:
+                ref.append([fresh()])
+            elif t == 7:
+                ref.append([fresh() for _ in range(op[1] + 1)])
+            elif t == 8:
+                ref[op[1]].append(fresh())
+            elif t == 9:
+                if len(ref[op[1]]) > 1:
+                    ref[op[1]].pop()
+            elif t == 10:
+                if len(ref[op[1]]) >= 3:
+                    e = ref[op[1]].pop(1)
+                    ref[op[2]].append(e)
+            got = obs[i]["files"]
+            if [len(x) for x in got] != [len(x) for x in ref]:
+                return "a file's container differs from a plain list subjected to its own operations (changed as a side effect)"
+        m = {}
+        for x, y in zip(sum(final["files"], []), sum(ref, [])):
+            if m.setdefault(x, y) != y:
+                return "files hold the wrong elements"
+        if len(set(m.values())) != len(m):
+            return "files hold the wrong elements"
         # containers of distinct files are distinct objects
         if len(set(final["file_conts"])) != len(final["file_conts"]):
             return "two files share one container"
@@ -393,7 +432,7 @@ class CHECK(Check):
             return
         ops = case["ops"]
         for i in range(len(ops) - 1, 1, -1):
-            if ops[i][0] in (2, 5, 8, 9):      # operations that allocate nothing can be dropped without renumbering
+            if ops[i][0] in (2, 5, 8, 9, 10):      # operations that allocate nothing can be dropped without renumbering
                 c = dict(case)
                 c["ops"] = ops[:i] + ops[i + 1:]
                 yield c
